@@ -22,7 +22,7 @@ CLAIMED = {
    note="TagState is reached through the add-only verif re-export; the list model is harness/src/model/tags.rs."),
  "C15": dict(level="exploration", design="5 C15",
    technique="bounded-exhaustive differential testing of detect_from/add_line against a grammar transcribed from the property statement, proptest-generated longer lines, a byte/character consistency oracle for space continuations, and generated small files judged end to end by the reference model",
-   text="Every line of <=4/5 tokens over the property's token alphabet and every (structured directive line, candidate continuation of <=3/4 tokens) pair is classified by the real code and by the reference grammar; results (directive or text, indent, prefix, kind, arguments, continue or end) must coincide. Exhaustive within the bound; longer lines are sampled; small generated files (directive, continuation-like and text lines) go through a whole build so that the line loop around the two functions (where a directive ends, the ending line processed normally, prefix-less multi-line directives rejected) is covered too.",
+   text="Every line of <=4/5 tokens over the property's token alphabet (17 tokens, among them tab and U+3000 as whitespace that is not ASCII) and every (structured directive line, candidate continuation of <=3/4 tokens) pair is classified by the real code and by the reference grammar; results (directive or text, indent, prefix, kind, arguments, continue or end) must coincide. Exhaustive within the bound; longer lines are sampled; small generated files (directive, continuation-like and text lines) go through a whole build so that the line loop around the two functions (where a directive ends, the ending line processed normally, prefix-less multi-line directives rejected) is covered too.",
    note="Pairs where 'as many spaces as the prefix is long' is ambiguous (non-ASCII prefix: bytes vs characters) are excluded and counted."),
  "C16": dict(level="exploration", design="5 C16",
    technique="property-based testing: two round-trip oracles built by construction (identity on directive-free text; write-escape of arbitrary line sequences with stored tags)",
